@@ -258,6 +258,15 @@ def mon_requests_responses(ctx, conn, skip_sids=(), require_complete=True, intac
         if g["dlen"] != len(r["body"]):
             cls = None
             viol(ctx, conn, "response-body-length", dict(sid=sid, got=g["dlen"], want=len(r["body"])), known_class=cls)
+        else:
+            # ... and the octets themselves: the per-frame digests (length:sum mod 65521:xor) add up to the body's
+            tot_s = tot_x = 0
+            for dg in g["digests"]:
+                _, s_, x_ = (int(v) for v in dg.split(":"))
+                tot_s, tot_x = (tot_s + s_) % 65521, tot_x ^ x_
+            want = adler_like(r["body"]).split(":")
+            if (tot_s, tot_x) != (int(want[1]), int(want[2])):
+                viol(ctx, conn, "response-body-octets-differ", dict(sid=sid, got="%d:%d:%d" % (g["dlen"], tot_s, tot_x), want=":".join(want)))
         if g["es"] != 1:
             cls = None
             if r["kind"].startswith("stream:") and g["es"] == 0:
@@ -815,9 +824,10 @@ def run_family(ctx, areas, monitors, rule, regress=()):
 
 
 def run_c01(ctx):
-    return run_family(ctx, ["srv-basic", "srv-hpackupd"], [lambda c, k: mon_requests_responses(c, k), mon_flow],
+    return run_family(ctx, ["srv-basic", "srv-hpackupd", "srv-flow"], [lambda c, k: mon_requests_responses(c, k), mon_flow],
                       "srv-basic: sets of <= MaxConcurrentStreams well-formed requests, random HPACK representation per field, header blocks cut into CONTINUATION at random octets, padding, priority section, DATA chunking and empty DATA, random interleaving (block contiguity kept), random completion order, buffered/streamed/empty responses. "
-                      "srv-hpackupd: request and trailer blocks opening with 1-3 dynamic table size updates, cut at every octet of the opening and of the first field, in three frames at every pair of octets of the opening, with empty CONTINUATION frames (the shapes of the repaired F04/F05).")
+                      "srv-hpackupd: request and trailer blocks opening with 1-3 dynamic table size updates, cut at every octet of the opening and of the first field, in three frames at every pair of octets of the opening, with empty CONTINUATION frames (the shapes of the repaired F04/F05). "
+                      "srv-flow: several responses (buffered and streamed) held back and released by window schedules: every response octet is compared with what its handler produced.")
 
 
 def run_c06(ctx):
